@@ -21,7 +21,7 @@ EXTENDS Naturals, Sequences, FiniteSets, TLC
 CONSTANTS K,         \* call-out sites per run
           Mode       \* "model": check the obligation ; "gen": enumerate programs x schedules
 Events == {"none", "gc", "grow", "stack", "gosched", "nested", "alloc"}
-Progs == {"dec_struct", "dec_slice", "dec_map", "dec_mapkeys", "dec_mapkeys_ptr", "dec_iface", "enc_struct", "enc_mapkeys", "enc_iface", "enc_slice"}
+Progs == {"dec_struct", "dec_slice", "dec_map", "dec_mapkeys", "dec_mapkeys_ptr", "dec_iface", "enc_struct", "enc_mapkeys", "enc_iface", "enc_slice", "enc_omitzero"}
 
 VARIABLES pc,        \* index of the next call-out site (1..K+1)
           regs,      \* pointers held in registers only
